@@ -43,18 +43,18 @@ theorem take_succ_of_getElem? {α : Type} (l : List α) (p : Nat) (c : α) (h : 
 /-! ### one refill -/
 
 structure Inv (st : BState) : Prop where
-  tok_le : st.tok ≤ st.buf.length
+  tok_le : st.tok + st.pre ≤ st.buf.length
   fits : st.buf.length ≤ st.size
   pending : st.eofPending = true → st.src = []
   size_pos : 1 ≤ st.size
 
 theorem refill_spec (rd : Reader) (hrd : rd.OK) (st : BState) (p : Nat) (hi : Inv st)
-    (hp : st.tok + p = st.buf.length) :
+    (hp : st.tok + p = st.buf.length) (hpre : st.pre ≤ p) :
     let r := refill rd st p
     unread r.1 = unread st ∧ r.1.tok = 0 ∧ r.1.buf.length = p + r.2 ∧ r.1.atBol = st.atBol ∧
       r.1.eofPending = st.eofPending ∧ Inv r.1 ∧ (r.2 = 0 → r.1.src = []) ∧
       r.1.buf.take p = (unread st).take p ∧
-      tokensOf r.1.out.toList = tokensOf st.out.toList := by
+      tokensOf r.1.out.toList = tokensOf st.out.toList ∧ r.1.pre = st.pre := by
   have hpart : (st.buf.drop st.tok).take p = st.buf.drop st.tok := by
     apply List.take_of_length_le; simp; omega
   have hplen : (st.buf.drop st.tok).length = p := by simp; omega
@@ -63,24 +63,26 @@ theorem refill_spec (rd : Reader) (hrd : rd.OK) (st : BState) (p : Nat) (hi : In
   · -- EOF pending: nothing is read
     rename_i he
     have hs := hi.pending he
-    refine ⟨?_, rfl, ?_, rfl, rfl, ?_, fun _ => hs, ?_, rfl⟩
+    refine ⟨?_, rfl, ?_, rfl, rfl, ?_, fun _ => hs, ?_, rfl, rfl⟩
     · simp [unread, hpart, hs]
     · simp [hpart, hplen]
-    · exact ⟨by simp, by simp [hpart, hplen]; have := hi.fits; omega, fun _ => hs, hi.size_pos⟩
+    · exact ⟨by simp [hpart, hplen]; omega, by simp [hpart, hplen]; have := hi.fits; omega, fun _ => hs, hi.size_pos⟩
     · simp [unread, hpart, hs]
   · rename_i he
     have hg := growTo_ge p (p + 2) st.size (by omega)
     have hm := growTo_mono p (p + 2) st.size
     obtain ⟨h1, h2, h3⟩ := hrd st.calls (min (growTo st.size p (p + 2) - p - 1) readBufSize) st.src.length
     generalize rd st.calls (min (growTo st.size p (p + 2) - p - 1) readBufSize) st.src.length = k at h1 h2 h3
-    refine ⟨?_, rfl, ?_, rfl, rfl, ?_, ?_, ?_, ?_⟩
+    refine ⟨?_, rfl, ?_, rfl, rfl, ?_, ?_, ?_, ?_, rfl⟩
     · simp [unread, hpart, List.append_assoc]
     · simp [hpart, hplen, List.length_take]; omega
     · have hk1 : k ≤ growTo st.size p (p + 2) - p - 1 := Nat.le_trans h1 (Nat.min_le_left _ _)
       have hk2 : min k st.src.length ≤ k := Nat.min_le_left _ _
       have hsz := hi.size_pos
       exact {
-        tok_le := by simp
+        tok_le := by
+          simp only [List.length_append, List.length_take, hpart, hplen]
+          omega
         fits := by
           simp only [List.length_append, List.length_take, hpart, hplen]
           omega
@@ -107,43 +109,33 @@ theorem upd_LaLe {σ : Type} (D : DFA σ) (la : Last) (p : Nat) (s : σ) (h : La
   · cases hh; omega
   · have := h l r hh; omega
 
-theorem absScan_LaLe {σ : Type} (D : DFA σ) :
-    ∀ (inp : List UInt8) (s : σ) (la : Last) (p : Nat), LaLe la p →
-      LaLe (absScan D s la p inp) (p + inp.length)
-  | [], s, la, p, h => by simpa [absScan] using h
-  | c :: rest, s, la, p, h => by
-    simp only [absScan]
-    have hweak : LaLe la (p + (c :: rest).length) := fun l r hh => by have := h l r hh; simp; omega
-    split
-    · exact hweak
-    · split
-      · exact hweak
-      · rename_i s' _
-        have := absScan_LaLe D rest s' (upd D la (p + 1) s') (p + 1) (upd_LaLe D la p s' h)
-        simpa [Nat.add_assoc, Nat.add_comm 1] using this
-
 /-- what one run of the match loop has to deliver -/
-structure ScanPost {σ : Type} (D : DFA σ) (U : List UInt8) (bol : Bool) (T : List (Nat × List UInt8))
-    (expect : Last) (r : Res σ) : Prop where
+structure ScanPost {σ : Type} (D : DFA σ) (U : List UInt8) (bol : Bool) (pre : Nat)
+    (T : List (Nat × List UInt8)) (expect : Last) (r : Res σ) : Prop where
   ok : match r with
     | .tok st' la' =>
-        la' = expect ∧ unread st' = U ∧ st'.atBol = bol ∧ Inv st' ∧
-          (∀ l r, la' = some (l, r) → st'.tok + l ≤ st'.buf.length) ∧
+        la' = expect ∧ unread st' = U ∧ st'.atBol = bol ∧ st'.pre = pre ∧ Inv st' ∧
+          (∀ l r, la' = some (l, r) → st'.tok + st'.pre + l ≤ st'.buf.length) ∧
           tokensOf st'.out.toList = T
-    | .eof st' => U = [] ∧ expect = none ∧ Inv st' ∧ tokensOf st'.out.toList = T
+    | .eof st' => U.length ≤ pre ∧ expect = none ∧ Inv st' ∧ tokensOf st'.out.toList = T
     | .fuel => False
 
+theorem drop_take_eq {α : Type} (l : List α) (a b : Nat) : (l.take (a + b)).drop a = (l.drop a).take b := by
+  rw [List.drop_take]; simp
+
 /-- The central invariant step: from any point of the match loop — `p` characters of the
-    token scanned, all of them in the buffer, in the state the automaton reaches on them —
-    the loop ends with the result of scanning the rest of the *whole* remaining input. -/
+    token scanned (after a carried prefix of `pre` characters), all of them in the buffer, in the
+    state the automaton reaches on them — the loop ends with the result of scanning the rest of
+    the *whole* remaining input. -/
 theorem scan_spec {σ : Type} (D : DFA σ) (rd : Reader) (hrd : rd.OK) :
     ∀ (fuel : Nat) (st : BState) (p : Nat) (s : σ) (la : Last),
-      Inv st → st.tok + p ≤ st.buf.length →
-      prevState D st.atBol ((unread st).take p) = some s →
+      Inv st → st.tok + st.pre + p ≤ st.buf.length →
+      prevState D st.atBol (((unread st).drop st.pre).take p) = some s →
       LaLe la p →
       (p = 0 → la = none) →
-      2 * ((unread st).length - p) + (if st.tok + p < st.buf.length then 0 else 1) + 1 ≤ fuel →
-      ScanPost D (unread st) st.atBol (tokensOf st.out.toList) (absScan D s la p ((unread st).drop p))
+      2 * ((unread st).length - st.pre - p) + (if st.tok + st.pre + p < st.buf.length then 0 else 1) + 1 ≤ fuel →
+      ScanPost D (unread st) st.atBol st.pre (tokensOf st.out.toList)
+        (absScan D s la p (((unread st).drop st.pre).drop p))
         (scan D rd fuel st p s la)
   | 0, st, p, s, la, _, _, _, _, _, hf => by omega
   | fuel + 1, st, p, s, la, hi, hp, hs, hla, hp0, hf => by
@@ -152,23 +144,23 @@ theorem scan_spec {σ : Type} (D : DFA σ) (rd : Reader) (hrd : rd.OK) :
     by_cases hd : D.dead s
     · -- an interactive scanner stops here
       simp only [hd, if_true]
-      refine ⟨?_, rfl, rfl, hi, fun l r hh => by have := hla l r hh; omega, rfl⟩
-      cases h : (unread st).drop p with
+      refine ⟨?_, rfl, rfl, rfl, hi, fun l r hh => by have := hla l r hh; omega, rfl⟩
+      cases h : ((unread st).drop st.pre).drop p with
       | nil => simp [absScan]
       | cons c rest => simp [absScan, hd]
     · simp only [hd, Bool.false_eq_true, if_false]
-      cases hc : st.buf[st.tok + p]? with
+      cases hc : st.buf[st.tok + st.pre + p]? with
       | some c =>
         -- a character of the buffer
-        have hlt : st.tok + p < st.buf.length := by
-          rcases Nat.lt_or_ge (st.tok + p) st.buf.length with h | h
+        have hlt : st.tok + st.pre + p < st.buf.length := by
+          rcases Nat.lt_or_ge (st.tok + st.pre + p) st.buf.length with h | h
           · exact h
           · rw [List.getElem?_eq_none h] at hc; cases hc
-        have hUc : (unread st)[p]? = some c := by
+        have hUc : ((unread st).drop st.pre)[p]? = some c := by
           simp only [unread]
-          rw [List.getElem?_append_left (by simp; omega), List.getElem?_drop]
-          exact hc
-        have hdrop : (unread st).drop p = c :: (unread st).drop (p + 1) := by
+          rw [List.getElem?_drop, List.getElem?_append_left (by simp; omega), List.getElem?_drop]
+          rw [← hc]; congr 1; omega
+        have hdrop : ((unread st).drop st.pre).drop p = c :: ((unread st).drop st.pre).drop (p + 1) := by
           rw [List.drop_eq_getElem?_toList_append, hUc]; rfl
         simp only
         rw [hdrop]
@@ -176,15 +168,16 @@ theorem scan_spec {σ : Type} (D : DFA σ) (rd : Reader) (hrd : rd.OK) :
         cases hstep : D.step s c with
         | none =>
           simp only
-          exact ⟨rfl, rfl, rfl, hi, fun l r hh => by have := hla l r hh; omega, rfl⟩
+          exact ⟨rfl, rfl, rfl, rfl, hi, fun l r hh => by have := hla l r hh; omega, rfl⟩
         | some s' =>
           simp only
-          have hs' : prevState D st.atBol ((unread st).take (p + 1)) = some s' := by
+          have hs' : prevState D st.atBol (((unread st).drop st.pre).take (p + 1)) = some s' := by
             rw [take_succ_of_getElem? _ _ _ hUc, prevState_snoc, hs]; simpa using hstep
-          have hlen : p < (unread st).length := by
-            rcases Nat.lt_or_ge p (unread st).length with h | h
+          have hlen : p < ((unread st).drop st.pre).length := by
+            rcases Nat.lt_or_ge p ((unread st).drop st.pre).length with h | h
             · exact h
             · rw [List.getElem?_eq_none h] at hUc; cases hUc
+          have hlen' : st.pre + p < (unread st).length := by simp at hlen; omega
           have := scan_spec D rd hrd fuel st (p + 1) s' (upd D la (p + 1) s') hi (by omega) hs'
             (upd_LaLe D la p s' hla) (by omega) (by
               simp only [hlt, if_true] at hf
@@ -192,53 +185,54 @@ theorem scan_spec {σ : Type} (D : DFA σ) (rd : Reader) (hrd : rd.OK) :
           exact this
       | none =>
         -- the end of the buffer
-        have hge : st.buf.length ≤ st.tok + p := by
-          rcases Nat.lt_or_ge (st.tok + p) st.buf.length with h | h
+        have hge : st.buf.length ≤ st.tok + st.pre + p := by
+          rcases Nat.lt_or_ge (st.tok + st.pre + p) st.buf.length with h | h
           · rw [List.getElem?_eq_getElem h] at hc; cases hc
           · exact h
-        have hpe : st.tok + p = st.buf.length := by omega
-        obtain ⟨r1, r2, r3, r4, r5, r6, r7, r8, r9⟩ := refill_spec rd hrd st p hi hpe
+        have hpe : st.tok + (st.pre + p) = st.buf.length := by omega
+        obtain ⟨r1, r2, r3, r4, r5, r6, r7, r8, r9, r10⟩ := refill_spec rd hrd st (st.pre + p) hi hpe (by omega)
         simp only
-        generalize hr : refill rd st p = rr at r1 r2 r3 r4 r5 r6 r7 r8 r9
+        generalize hr : refill rd st (st.pre + p) = rr at r1 r2 r3 r4 r5 r6 r7 r8 r9 r10
         obtain ⟨st', k⟩ := rr
-        simp only at r1 r2 r3 r4 r5 r6 r7 r8 r9 ⊢
+        simp only at r1 r2 r3 r4 r5 r6 r7 r8 r9 r10 ⊢
+        have hmoved : (st'.buf.drop st.pre).take p = ((unread st).drop st.pre).take p := by
+          rw [← drop_take_eq, ← drop_take_eq, r8]
         by_cases hk : k = 0
         · -- nothing more: end of file, or the last match
           simp only [hk, if_true]
           have hsrc := r7 hk
-          have hUp : (unread st).length = p := by
-            have : (unread st').length = p := by simp [unread, r2, hsrc, r3, hk]
+          have hUp : (unread st).length = st.pre + p := by
+            have : (unread st').length = st.pre + p := by simp [unread, r2, hsrc, r3, hk]
             rw [r1] at this; exact this
-          have hdr : (unread st).drop p = [] := by
-            apply List.drop_eq_nil_of_le; omega
+          have hdr : ((unread st).drop st.pre).drop p = [] := by
+            apply List.drop_eq_nil_of_le; simp; omega
           rw [hdr]
           simp only [absScan]
           by_cases hz : p = 0
           · simp only [hz, if_true]
             subst hz
-            refine ⟨?_, hp0 rfl, r6, r9⟩
-            exact List.eq_nil_of_length_eq_zero hUp
+            exact ⟨by omega, hp0 rfl, r6, r9⟩
           · simp only [hz, if_false]
-            refine ⟨rfl, ?_, r4, ?_, ?_, r9⟩
+            refine ⟨rfl, ?_, r4, r10, ?_, ?_, r9⟩
             · simpa [unread] using r1
             · exact ⟨r6.tok_le, r6.fits, fun _ => hsrc, r6.size_pos⟩
             · intro l r hh
               have := hla l r hh
-              simp only [r2, r3]; omega
+              simp only [r2, r3, r10]; omega
         · simp only [hk, if_false]
           -- the state computed again from the moved text is the same state
-          have hprev : prevState D st.atBol (st'.buf.take p) = some s := by
-            rw [r8]; exact hs
+          have hprev : prevState D st.atBol ((st'.buf.drop st.pre).take p) = some s := by
+            rw [hmoved]; exact hs
           rw [hprev]
           simp only
-          have := scan_spec D rd hrd fuel st' p s la r6 (by omega) (by rw [r1, r4]; exact hs) hla hp0 (by
-            rw [r1]
-            have h1 : ¬ st.tok + p < st.buf.length := by omega
+          have := scan_spec D rd hrd fuel st' p s la r6 (by omega) (by rw [r1, r4, r10]; exact hs) hla hp0 (by
+            rw [r1, r10]
+            have h1 : ¬ st.tok + st.pre + p < st.buf.length := by omega
             simp only [h1, if_false] at hf
-            have h2 : st'.tok + p < st'.buf.length := by omega
+            have h2 : st'.tok + st.pre + p < st'.buf.length := by omega
             simp only [h2, if_true]
             omega)
-          rw [r1, r4, r9] at this
+          rw [r1, r4, r9, r10] at this
           exact this
 
 /-! ### all tokens -/
@@ -253,16 +247,25 @@ theorem tokensOf_push_jammed (a : Array Ev) :
     tokensOf (a.push .jammed).toList = tokensOf a.toList := by
   simp [tokensOf, List.filterMap_append]
 
-/-- **Delivery independence (C03), buffer level.**  Whatever the buffer size (≥ 1) and however
-    the input routine cuts the input into reads (`Reader.OK`: between 1 and the requested number
-    of bytes while input remains), the tokens the buffer machine produces are the tokens of a
-    scan of the whole input; and its buffer never holds more than `yy_buf_size` characters. -/
-theorem run_tokens {σ : Type} (D : DFA σ) (rd : Reader) (hrd : rd.OK) :
-    ∀ (fuel : Nat) (st : BState), Inv st →
-      tokensOf (run D rd fuel st).out.toList =
-        tokensOf st.out.toList ++ absLex D fuel st.atBol (unread st) ∧ Inv (run D rd fuel st)
-  | 0, st, hi => by simp [run, absLex, hi]
-  | fuel + 1, st, hi => by
+/-- an action moves the token start by as much as it drops from the front of the unread input -/
+theorem apply_fst (a : Act) (tok pre len : Nat) :
+    (a.apply tok pre len).1 = tok + (a.apply 0 pre len).1 ∧ (a.apply tok pre len).2 = (a.apply 0 pre len).2 ∧
+      (a.apply 0 pre len).1 + (a.apply 0 pre len).2 ≤ len := by
+  cases a <;> simp [Act.apply] <;> omega
+
+/-- **Delivery independence (C03), buffer level.**  Whatever the buffer size (≥ 1), however the
+    input routine cuts the input into reads (`Reader.OK`: between 1 and the requested number of
+    bytes while input remains) and whatever the actions do with yyless() and yymore(), the tokens
+    the buffer machine produces — rule and yytext, carried prefix included — are those of the
+    buffer-less reference `absLex` on the whole input; and the buffer never holds more than
+    `yy_buf_size` characters. -/
+theorem run_tokens {σ : Type} (D : DFA σ) (rd : Reader) (hrd : rd.OK) (act : Script) :
+    ∀ (fuel k : Nat) (st : BState), Inv st →
+      tokensOf (run D rd act fuel k st).out.toList =
+        tokensOf st.out.toList ++ absLex D act fuel k st.atBol st.pre (unread st) ∧
+      Inv (run D rd act fuel k st)
+  | 0, k, st, hi => by simp [run, absLex, hi]
+  | fuel + 1, k, st, hi => by
     have hU : (unread st).length = st.buf.length - st.tok + st.src.length := by simp [unread]
     have hsp := scan_spec D rd hrd (tokFuel st) st 0 (D.start st.atBol) none hi (by have := hi.tok_le; omega)
       (by simp [prevState_nil]) (by intro l r h; cases h) (fun _ => rfl)
@@ -276,22 +279,21 @@ theorem run_tokens {σ : Type} (D : DFA σ) (rd : Reader) (hrd : rd.OK) :
       obtain ⟨h1, h2, h3, h4⟩ := hsp.ok
       simp only
       refine ⟨?_, h3⟩
-      rw [h4, h1]
-      cases fuel <;> simp [absLex]
+      rw [h4]
+      simp [absLex, h1]
     | tok st' la' =>
       rw [hr] at hsp
-      obtain ⟨h1, h2, h3, h4, h5, h6⟩ := hsp.ok
-      have habs : absTok D st.atBol (unread st) = la' := h1.symm
+      obtain ⟨h1, h2, h3, hpre, h4, h5, h6⟩ := hsp.ok
+      have habs : absTok D st.atBol ((unread st).drop st.pre) = la' := h1.symm
       cases hla : la' with
       | none =>
         simp only
         refine ⟨?_, ⟨h4.tok_le, h4.fits, h4.pending, h4.size_pos⟩⟩
         rw [tokensOf_push_jammed, h6]
-        cases hu : unread st with
-        | nil => simp [absLex]
-        | cons c rest =>
-          rw [hu, hla] at habs
-          simp [absLex, habs]
+        simp only [absLex]
+        split
+        · simp
+        · rw [habs, hla]; simp
       | some lr =>
         obtain ⟨l, r⟩ := lr
         simp only
@@ -299,62 +301,65 @@ theorem run_tokens {σ : Type} (D : DFA σ) (rd : Reader) (hrd : rd.OK) :
         · simp only [hl, if_true]
           refine ⟨?_, ⟨h4.tok_le, h4.fits, h4.pending, h4.size_pos⟩⟩
           rw [tokensOf_push_jammed, h6]
-          cases hu : unread st with
-          | nil => simp [absLex]
-          | cons c rest =>
-            rw [hu, hla, hl] at habs
-            simp [absLex, habs]
+          simp only [absLex]
+          split
+          · simp
+          · rw [habs, hla, hl]; simp
         · simp only [hl, if_false]
           have hb := h5 l r hla
-          have htext : (st'.buf.drop st'.tok).take l = (unread st).take l := by
-            rw [← h2]; simp only [unread]
+          have hlenU : st.pre + l ≤ (unread st).length := by
+            rw [← h2]; simp only [unread, List.length_append, List.length_drop]; omega
+          have htext : (st'.buf.drop st'.tok).take (st'.pre + l) = (unread st).take (st.pre + l) := by
+            rw [← h2, hpre]; simp only [unread]
             rw [List.take_append_of_le_length (by simp; omega)]
-          have hne : unread st ≠ [] := by
-            intro he
-            have : (unread st').length = 0 := by rw [h2, he]; rfl
-            simp [unread] at this
-            omega
+          generalize hact : act k r ((st'.buf.drop st'.tok).take (st'.pre + l)) = ak
+          obtain ⟨a, k'⟩ := ak
+          obtain ⟨ha1, ha2, ha3⟩ := apply_fst a st'.tok st'.pre (st'.pre + l)
           -- the state after the action
-          have hi'' : Inv { st' with tok := st'.tok + l, atBol := endsNl ((st'.buf.drop st'.tok).take l) st'.atBol,
-                                     out := st'.out.push (.tok r ((st'.buf.drop st'.tok).take l)) } :=
-            ⟨hb, h4.fits, h4.pending, h4.size_pos⟩
-          have hun : unread { st' with tok := st'.tok + l, atBol := endsNl ((st'.buf.drop st'.tok).take l) st'.atBol,
-                                       out := st'.out.push (.tok r ((st'.buf.drop st'.tok).take l)) } =
-              (unread st).drop l := by
-            rw [← h2]; simp only [unread]
+          have hi'' : Inv { st' with tok := (a.apply st'.tok st'.pre (st'.pre + l)).1,
+                                     pre := (a.apply st'.tok st'.pre (st'.pre + l)).2,
+                                     atBol := endsNl ((st'.buf.drop st'.tok).take (st'.pre + l)) st'.atBol,
+                                     out := st'.out.push (.tok r ((st'.buf.drop st'.tok).take (st'.pre + l))) } :=
+            ⟨by simp only [ha1, ha2]; omega, h4.fits, h4.pending, h4.size_pos⟩
+          have hun : unread { st' with tok := (a.apply st'.tok st'.pre (st'.pre + l)).1,
+                                       pre := (a.apply st'.tok st'.pre (st'.pre + l)).2,
+                                       atBol := endsNl ((st'.buf.drop st'.tok).take (st'.pre + l)) st'.atBol,
+                                       out := st'.out.push (.tok r ((st'.buf.drop st'.tok).take (st'.pre + l))) } =
+              (unread st).drop (a.apply 0 st'.pre (st'.pre + l)).1 := by
+            rw [← h2]; simp only [unread, ha1]
             rw [List.drop_append_of_le_length (by simp; omega), List.drop_drop, Nat.add_comm]
-          obtain ⟨ih1, ih2⟩ := run_tokens D rd hrd fuel _ hi''
+          obtain ⟨ih1, ih2⟩ := run_tokens D rd hrd act fuel k' _ hi''
           refine ⟨?_, ih2⟩
           rw [ih1, hun]
-          simp only [tokensOf_push_tok, h6, h3, htext]
-          cases hu : unread st with
-          | nil => exact absurd hu hne
-          | cons c rest =>
-            rw [hu, hla] at habs
-            simp only [absLex, habs, hl, if_false, List.append_assoc, List.singleton_append]
+          simp only [tokensOf_push_tok, h6, h3, ha2]
+          simp only [absLex]
+          have hnle : ¬ (unread st).length ≤ st.pre := by omega
+          simp only [hnle, if_false, habs, hla, hl]
+          rw [htext] at hact ⊢
+          simp only [hact, hpre, List.append_assoc, List.singleton_append]
 
 theorem init_Inv (size : Nat) (src : List UInt8) (h : 1 ≤ size) : Inv (init size src) :=
   ⟨by simp [init], by simp [init], by simp [init], h⟩
 
 /-- the statement for a whole run from a fresh buffer -/
-theorem run_from_init {σ : Type} (D : DFA σ) (rd : Reader) (hrd : rd.OK) (size : Nat) (hs : 1 ≤ size)
-    (src : List UInt8) (fuel : Nat) :
-    tokensOf (run D rd fuel (init size src)).out.toList = absLex D fuel true src ∧
-      (run D rd fuel (init size src)).buf.length ≤ (run D rd fuel (init size src)).size := by
-  obtain ⟨h1, h2⟩ := run_tokens D rd hrd fuel (init size src) (init_Inv size src hs)
+theorem run_from_init {σ : Type} (D : DFA σ) (rd : Reader) (hrd : rd.OK) (act : Script) (size : Nat)
+    (hs : 1 ≤ size) (src : List UInt8) (fuel : Nat) :
+    tokensOf (run D rd act fuel 0 (init size src)).out.toList = absLex D act fuel 0 true 0 src ∧
+      (run D rd act fuel 0 (init size src)).buf.length ≤ (run D rd act fuel 0 (init size src)).size := by
+  obtain ⟨h1, h2⟩ := run_tokens D rd hrd act fuel 0 (init size src) (init_Inv size src hs)
   refine ⟨?_, h2.fits⟩
   rw [h1]; simp [init, unread, tokensOf]
 
 /-- C03's first sentence at the buffer level, under the name the checks cite.  **Partial**: it
-    is a statement about `Runtime/Buf.lean`, which covers scanners whose actions leave the input
-    alone (no yyless / yymore / yyunput / yyinput / buffer switch), without REJECT's state stack,
+    is a statement about `Runtime/Buf.lean`, which covers scanners whose actions use yyless() and
+    yymore() (%pointer) but not yyunput / yyinput / buffer switches, without REJECT's state stack,
     with the end-of-buffer test as a position test (the NUL sentinel detour is not in the model)
     and without `int` overflow of the buffer size.  The full property is explored against the
     abstract scanner of `Runtime/Abs.lean`. -/
-theorem delivery_independent_partial {σ : Type} (D : DFA σ) (rd : Reader) (hrd : rd.OK) (size : Nat)
-    (hs : 1 ≤ size) (src : List UInt8) (fuel : Nat) :
-    tokensOf (run D rd fuel (init size src)).out.toList = absLex D fuel true src :=
-  (run_from_init D rd hrd size hs src fuel).1
+theorem delivery_independent_partial {σ : Type} (D : DFA σ) (rd : Reader) (hrd : rd.OK) (act : Script)
+    (size : Nat) (hs : 1 ≤ size) (src : List UInt8) (fuel : Nat) :
+    tokensOf (run D rd act fuel 0 (init size src)).out.toList = absLex D act fuel 0 true 0 src :=
+  (run_from_init D rd hrd act size hs src fuel).1
 
 /-- the harness's cyclic schedule of read sizes is an input routine in the above sense -/
 theorem schedReader_OK (sched : List Nat) : (schedReader sched).OK := by
@@ -364,14 +369,18 @@ theorem schedReader_OK (sched : List Nat) : (schedReader sched).OK := by
   intro h1 h2
   split <;> split <;> omega
 
-/-- non-vacuity: a two-state automaton for `a+ | b`, buffer of one byte, one byte per read -/
+/-- non-vacuity: a two-state automaton for `a+ | b`, buffer of one byte, one byte per read;
+    the second action keeps one character and asks for more -/
 def exD : DFA Nat where
   start := fun _ => 0
   step := fun s c => if c == 97 then (if s == 0 || s == 1 then some 1 else none) else if c == 98 && s == 0 then some 2 else none
   accept := fun s => if s == 1 then some 1 else if s == 2 then some 2 else none
   dead := fun _ => false
 
-example : tokensOf (run exD (schedReader [1]) 10 (init 1 [97, 97, 98, 97])).out.toList =
+example : tokensOf (run exD (schedReader [1]) (fun k _ _ => (.plain, k + 1)) 10 0 (init 1 [97, 97, 98, 97])).out.toList =
     [(1, [97, 97]), (2, [98]), (1, [97])] := by decide
+
+example : tokensOf (run exD (schedReader [1]) (fun k _ _ => (if k == 0 then .lessMore 1 else .plain, k + 1)) 10 0
+    (init 1 [97, 97, 98, 97])).out.toList = [(1, [97, 97]), (1, [97, 97]), (2, [98]), (1, [97])] := by decide
 
 end FlexVerif.Buf
